@@ -12,6 +12,7 @@ RULE = ("ExpandMsg::expand_message for XMD(SHA-256), XMD(SHA-512), XOF(SHAKE128)
         "k*m, k*m+1 for several k up to the top of the block, values around 2^256 / 2^192 (the split point of the "
         "reduction), random. Oracle: RFC 9380 section 5 over hashlib, int.from_bytes(block) mod m. A case is (op, "
         "expander/field, output-length class, message-length class, tag-length, outcome, build)")
+RULE += (" " + 'XMD requests far beyond the limit (just above 2^16, 2^32, 2^48, 2^63 and at the top of the usize range) must all abort.')
 ASSUMPTIONS = ["hashlib SHA-2 / SHAKE as the independent hash implementation", "RFC 9380 section 5.3 as transcribed in model/rfc9380.py (checked against appendix K vectors)"]
 EXHAUSTIVE = ["block-count boundaries ell = 0, 1, 2, 254, 255, 256 for both XMD hashes", "hash_to_field element counts at the XMD limit and limit+1 for Fq, Fr, Fq2"]
 MIN_EVALS = {"quick": 8000, "thorough": 200000}
